@@ -22,6 +22,7 @@ if TYPE_CHECKING:
 
 from exabgp.bgp.message import _NOP, EOR, KeepAlive, Message, Notification, Notify, Open, Operational, Update
 from exabgp.bgp.message.direction import Direction
+from exabgp.bgp.message.scheduling import NOP
 from exabgp.bgp.message.open import RouterID, Version
 from exabgp.bgp.message.open.capability import Capabilities, Negotiated
 from exabgp.bgp.message.refresh import RouteRefresh
@@ -39,6 +40,19 @@ MAX_BACKLOG = 15000
 
 _UPDATE = UpdateCollection([], [], AttributeCollection())
 _OPERATIONAL = Operational(0x00)
+
+
+class _Ignored(NOP):
+    """A message read from the peer and dropped (RFC 7606 attribute discard).
+
+    It IS traffic - RFC 4271 restarts the hold timer on every UPDATE - so it must not look like
+    'no data yet' to the receive timer.
+    """
+
+    SCHEDULING = 0  # Scheduling.MESSAGE
+
+
+_IGNORED = _Ignored()
 
 
 class Protocol:
@@ -297,7 +311,7 @@ class Protocol:
             raise cast(Notification, message)
 
         if isinstance(message, Update) and Attribute.CODE.INTERNAL_DISCARD in message.data.attributes:
-            return _NOP
+            return _IGNORED
         else:
             return message
 
